@@ -49,19 +49,19 @@ theorem printablePrefix_printable (s : List Byte) (h : ∀ b ∈ s, isPrint b = 
   unfold printablePrefix; exact takeWhile_all _ s h
 
 /-- one text chunk at the front of the walk is read back as it was set, and the walk goes on behind its pad byte -/
-theorem aiffParse_item (fuel : Nat) (e : Nat × List Byte) (rest : List Byte) (h : aiffOk e) :
-    aiffParse (fuel + 1) (aiffItem e ++ rest) = e :: aiffParse fuel rest := by
+theorem aiffParseW_item (L : AiffLimits) (fuel : Nat) (e : Nat × List Byte) (rest : List Byte) (h : aiffOkW L e) :
+    aiffParseW L (fuel + 1) (aiffItem e ++ rest) = e :: aiffParseW L fuel rest := by
   obtain ⟨ty, s⟩ := e
-  obtain ⟨hz, hne, hty⟩ := h
-  simp only at hz hne hty
+  obtain ⟨hz, hne, h32, hty⟩ := h
+  simp only at hz hne hty h32
   have hpos : 0 < s.length := List.length_pos_iff.mpr hne
   have hcs := cstr_no_zero s hz
   have m4 : ∀ t : String, t.toList.length = 4 → (mk t).length = 4 := fun t ht => by simp [mk_length, ht]
   have body : ∀ (m : List Byte), m.length = 4 → isAiffText m = true → ∀ (payload : List Byte) (size : Nat), size < 2 ^ 32 →
-      payload.length = size + size % 2 → aiffReadText m size (payload ++ rest) = some (ty, s) →
-      aiffParse (fuel + 1) (m ++ be4 size ++ payload ++ rest) = (ty, s) :: aiffParse fuel rest := by
+      payload.length = size + size % 2 → aiffReadTextW L m size (payload ++ rest) = some (ty, s) →
+      aiffParseW L (fuel + 1) (m ++ be4 size ++ payload ++ rest) = (ty, s) :: aiffParseW L fuel rest := by
     intro m hm4 htext payload size hsz hpl hread
-    rw [aiffParse]
+    rw [aiffParseW]
     have hlen : ¬ (m ++ be4 size ++ payload ++ rest).length < 8 := by simp [hm4]; omega
     rw [if_neg hlen]
     have e1 : (m ++ be4 size ++ payload ++ rest).take 4 = m := by
@@ -75,73 +75,139 @@ theorem aiffParse_item (fuel : Nat) (e : Nat × List Byte) (rest : List Byte) (h
     simp only [hread]
     rw [drop_front _ _ _ hpl]
   rcases hty with ⟨rfl, hl⟩ | ⟨rfl, hl⟩ | ⟨rfl, hl⟩ | ⟨rfl, hl, hp⟩ | ⟨rfl, hl, hp⟩
-  all_goals unfold SCRATCH at hl
   · -- NAME
     have := body (mk "NAME") (by decide) (by decide) (s ++ zeros (s.length % 2)) s.length (by omega) (by simp) (by
-      simp only [aiffReadText]
-      rw [if_neg (by omega), if_neg (by decide), if_neg (by decide), if_pos trivial, if_neg (by unfold SCRATCH; omega)]
+      simp only [aiffReadTextW]
+      rw [if_neg (by omega), if_neg (by decide), if_neg (by decide), if_pos trivial, if_neg (by omega)]
       rw [List.append_assoc, take_front _ _ _ rfl, hcs])
     simpa [aiffItem, serS, List.append_assoc] using this
   · -- ANNO
     have := body (mk "ANNO") (by decide) (by decide) (s ++ zeros (s.length % 2)) s.length (by omega) (by simp) (by
-      simp only [aiffReadText]
-      rw [if_neg (by omega), if_neg (by decide), if_neg (by decide), if_neg (by decide), if_pos trivial, if_neg (by unfold SCRATCH; omega)]
+      simp only [aiffReadTextW]
+      rw [if_neg (by omega), if_neg (by decide), if_neg (by decide), if_neg (by decide), if_pos trivial, if_neg (by omega)]
       rw [List.append_assoc, take_front _ _ _ rfl, hcs])
     simpa [aiffItem, serS, List.append_assoc] using this
   · -- AUTH
     have := body (mk "AUTH") (by decide) (by decide) (s ++ zeros (s.length % 2)) s.length (by omega) (by simp) (by
-      simp only [aiffReadText]
-      rw [if_neg (by omega), if_neg (by decide), if_pos trivial, if_neg (by unfold SCRATCH; omega)]
+      simp only [aiffReadTextW]
+      rw [if_neg (by omega), if_neg (by decide), if_pos trivial, if_neg (by omega)]
       rw [List.append_assoc, take_front _ _ _ rfl, hcs])
     simpa [aiffItem, serS, List.append_assoc] using this
   · -- (c)
     have := body (mk "(c) ") (by decide) (by decide) (s ++ zeros (s.length % 2)) s.length (by omega) (by simp) (by
-      simp only [aiffReadText]
-      rw [if_neg (by omega), if_pos trivial, if_neg (by unfold SCRATCH; omega)]
+      simp only [aiffReadTextW]
+      rw [if_neg (by omega), if_pos trivial, if_neg (by omega)]
       rw [List.append_assoc, take_front _ _ _ rfl, sanitize_printable s hp, hcs])
     simpa [aiffItem, serS, List.append_assoc] using this
   · -- APPL
     have := body (mk "APPL") (by decide) (by decide) (mk "m3ga" ++ s ++ zeros (s.length % 2)) (s.length + 4) (by omega)
       (by simp [mk_length]; omega) (by
-      simp only [aiffReadText]
+      simp only [aiffReadTextW]
       rw [if_neg (by omega), if_neg (by decide), if_neg (by decide), if_neg (by decide), if_neg (by decide), if_pos trivial,
-        if_neg (by unfold SCRATCH; omega)]
+        if_neg (by omega)]
       have e4 : (mk "m3ga").length = 4 := by decide
       rw [List.append_assoc, List.append_assoc, drop_front _ _ 4 e4, Nat.add_sub_cancel, take_front _ _ _ rfl, hcs,
         printablePrefix_printable s hp])
     simpa [aiffItem, List.append_assoc] using this
 
-/-- get after re-open = what was set, for every list of AIFF texts within the explicit limits `aiffOk` (no NUL, not empty;
-    title / comment < 8190 bytes, author < 8191, copyright < 8192 and printable ASCII, software printable ASCII) -/
-theorem aiff_text_roundtrip (es : List (Nat × List Byte)) (h : ∀ e ∈ es, aiffOk e) :
-    ∀ fuel, es.length ≤ fuel → aiffParse fuel (aiffStrings es) = es := by
+theorem aiffParseW_items (L : AiffLimits) (es : List (Nat × List Byte)) (h : ∀ e ∈ es, aiffOkW L e) :
+    ∀ fuel, es.length ≤ fuel → aiffParseW L fuel (aiffStrings es) = es := by
   unfold aiffStrings
   induction es with
-  | nil => intro fuel _; cases fuel <;> simp [aiffParse]
+  | nil => intro fuel _; cases fuel <;> simp [aiffParseW]
   | cons e t ih =>
     intro fuel hf
     cases fuel with
     | zero => simp at hf
     | succ f =>
       simp only [List.flatMap_cons]
-      rw [aiffParse_item f e _ (h e (by simp)), ih (fun e he => h e (by simp [he])) f (by simpa using hf)]
+      rw [aiffParseW_item L f e _ (h e (by simp)), ih (fun e he => h e (by simp [he])) f (by simpa using hf)]
+
+theorem aiffOk_limits (e : Nat × List Byte) (h : aiffOk e) : aiffOkW aiffLimits e := by
+  obtain ⟨hz, hne, hty⟩ := h
+  refine ⟨hz, hne, ?_, ?_⟩
+  · unfold HEADER_CAP at hty; omega
+  · unfold aiffLimits; simp only
+    rcases hty with ⟨a, b⟩ | ⟨a, b⟩ | ⟨a, b⟩ | ⟨a, b, c⟩ | ⟨a, b, c⟩
+    · exact Or.inl ⟨a, by omega⟩
+    · exact Or.inr (Or.inl ⟨a, by omega⟩)
+    · exact Or.inr (Or.inr (Or.inl ⟨a, by omega⟩))
+    · exact Or.inr (Or.inr (Or.inr (Or.inl ⟨a, by omega, c⟩)))
+    · exact Or.inr (Or.inr (Or.inr (Or.inr ⟨a, by omega, c⟩)))
+
+/-- get after re-open = what was set (full strength in the lengths since the repair of the reader), for every list of AIFF
+    texts `aiffOk` admits: non-empty C strings whose chunk the header cache can hold (100 KiB; the writer cannot produce more
+    either), copyright and software printable ASCII (known finding KF.aiffSanitize) -/
+theorem aiff_text_roundtrip (es : List (Nat × List Byte)) (h : ∀ e ∈ es, aiffOk e) :
+    ∀ fuel, es.length ≤ fuel → aiffParse fuel (aiffStrings es) = es :=
+  aiffParseW_items aiffLimits es (fun e he => aiffOk_limits e (h e he))
 
 example : aiffParse 9 (aiffStrings [(1, ascii "Title"), (3, ascii "tools (libsndfile-1.2.2)"), (2, ascii "(c) me"), (5, ascii "odd")]) =
     [(1, ascii "Title"), (3, ascii "tools (libsndfile-1.2.2)"), (2, ascii "(c) me"), (5, ascii "odd")] := by decide +kernel
+
+/-- the old reader's round trip under its limits (title / comment < 8190 bytes, author < 8191, copyright < 8192, …) -/
+theorem aiff_text_roundtrip_short_old_rule (es : List (Nat × List Byte)) (h : ∀ e ∈ es, aiffOkOld e) :
+    ∀ fuel, es.length ≤ fuel → aiffParseOld fuel (aiffStrings es) = es :=
+  aiffParseW_items aiffLimitsOld es h
 
 /-- the full statement puts no limit on the texts -/
 def aiff_text_full : Prop := ∀ es : List (Nat × List Byte), (∀ e ∈ es, (∀ b ∈ e.2, b ≠ 0) ∧ e.2 ≠ [] ∧ e.1 ∈ [1, 2, 3, 4, 5]) →
   aiffParse (es.length + 1) (aiffStrings es) = es
 
-/-- known findings: a copyright text with a byte outside printable ASCII comes back with '.' in its place, a software text is cut
-    there, and a title of 8190 bytes is skipped by the reader -/
+/-- known finding KF.aiffSanitize (still open): a copyright text with a byte outside printable ASCII comes back with '.' in its
+    place, a software text is cut there -/
 theorem aiff_text_limits_witness : ¬ aiff_text_full := by
   intro h
   have := h [(2, [169, 32, 90])] (by decide)
   revert this; decide +kernel
 
 example : aiffParse 3 (aiffStrings [(3, [90, 111, 195, 171])]) = [(3, [90, 111])] := by decide +kernel
-example : aiffParse 3 (aiffStrings [(4, [65]), (1, List.replicate 8190 65)]) = [(4, [65])] := by decide +kernel
+
+/-- the statement for lengths: printable texts of any length the header cache can hold -/
+def aiff_text_lengths_full_for (parse : Nat → List Byte → List (Nat × List Byte)) : Prop :=
+  ∀ es : List (Nat × List Byte), (∀ e ∈ es, e.2 ≠ [] ∧ e.1 ∈ [1, 2, 3, 4, 5] ∧ e.2.length + 4 ≤ HEADER_CAP ∧ ∀ b ∈ e.2, isPrint b = true) →
+  parse (es.length + 1) (aiffStrings es) = es
+
+theorem isPrint_ne_zero (b : Byte) (h : isPrint b = true) : b ≠ 0 := by
+  intro h0; subst h0; simp [isPrint] at h
+
+/-- full strength for the repaired reader: no 8 KiB limit -/
+theorem aiff_text_lengths_full : aiff_text_lengths_full_for aiffParse := by
+  intro es h
+  apply aiff_text_roundtrip es _ _ (by omega)
+  intro e he
+  obtain ⟨hne, hty, hl, hp⟩ := h e he
+  refine ⟨fun b hb => isPrint_ne_zero b (hp b hb), hne, ?_⟩
+  simp only [List.mem_cons, List.mem_nil_iff, or_false] at hty
+  rcases hty with a | a | a | a | a
+  · exact Or.inl ⟨a, by omega⟩
+  · exact Or.inr (Or.inr (Or.inr (Or.inl ⟨a, by omega, hp⟩)))
+  · exact Or.inr (Or.inr (Or.inr (Or.inr ⟨a, hl, hp⟩)))
+  · exact Or.inr (Or.inr (Or.inl ⟨a, by omega⟩))
+  · exact Or.inr (Or.inl ⟨a, by omega⟩)
+
+theorem long_title_admissible (n : Nat) (hn : 0 < n) (hc : n + 4 ≤ HEADER_CAP) :
+    ∀ e ∈ [((4 : Nat), ([65] : List Byte)), (1, List.replicate n 65)],
+      e.2 ≠ [] ∧ e.1 ∈ [1, 2, 3, 4, 5] ∧ e.2.length + 4 ≤ HEADER_CAP ∧ ∀ b ∈ e.2, isPrint b = true := by
+  intro e he
+  simp only [List.mem_cons, List.mem_nil_iff, or_false] at he
+  rcases he with rfl | rfl
+  · decide
+  · refine ⟨by cases n <;> simp_all [List.replicate], by simp, by simpa using hc, ?_⟩
+    intro b hb
+    rw [(List.mem_replicate.mp hb).2]; decide
+
+/-- a title of 8190 bytes is read back now … -/
+example : aiffParse 3 (aiffStrings [(4, [65]), (1, List.replicate 8190 65)]) = [(4, [65]), (1, List.replicate 8190 65)] :=
+  aiff_text_lengths_full _ (long_title_admissible 8190 (by decide) (by decide))
+
+/-- … and was skipped by the reader with the 8 KiB scratch buffer -/
+theorem aiff_text_8190_old_rule : ¬ aiff_text_lengths_full_for aiffParseOld := by
+  intro h
+  have := h [(4, [65]), (1, List.replicate 8190 65)] (long_title_admissible 8190 (by decide) (by decide))
+  have hold : aiffParseOld 3 (aiffStrings [(4, [65]), (1, List.replicate 8190 65)]) = [(4, [65])] := by decide +kernel
+  rw [show ([(4, [65]), (1, List.replicate 8190 65)] : List (Nat × List Byte)).length + 1 = 3 from rfl, hold] at this
+  exact absurd (congrArg List.length this) (by simp only [List.length_cons, List.length_nil]; omega)
 
 /-- before the repair of the APPL reader the software text could come back with up to four stale bytes behind it -/
 theorem appl_stale_old_rule : applTextOld (ascii "fer!") (ascii "tools (libsndfile-1.2.2)") = ascii "tools (libsndfile-1.2.2)fer!" ∧
@@ -155,10 +221,10 @@ theorem cafKey_spec {ty : Nat} {k : List Byte} (h : cafKey ty = some k) : (∀ b
   unfold cafKey at h
   split at h <;> simp at h <;> subst h <;> decide
 
-/-- when everything fits the 16 KiB buffer, put_key_value collects every pair in order -/
-theorem cafPut_fits (es : List (Nat × List Byte)) (h : ∀ e ∈ es, cafOk e) :
-    ∀ (buf : List Byte) (cnt : Nat), buf.length + cafNeed es < CAF_BUF →
-      cafPut buf cnt es = (buf ++ es.flatMap pairBytes, cnt + es.length) := by
+/-- when everything fits the buffer, put_key_value collects every pair in order -/
+theorem cafPut_fits (cap : Nat) (es : List (Nat × List Byte)) (h : ∀ e ∈ es, cafOk e) :
+    ∀ (buf : List Byte) (cnt : Nat), buf.length + cafNeed es < cap →
+      cafPut cap buf cnt es = (buf ++ es.flatMap pairBytes, cnt + es.length) := by
   induction es with
   | nil => intro buf cnt _; simp [cafPut]
   | cons e t ih =>
@@ -212,24 +278,24 @@ theorem length_le_cafNeed (es : List (Nat × List Byte)) : es.length ≤ cafNeed
   | cons e t ih => simp only [List.length_cons, cafNeed]; omega
 
 /-- get after re-open = what was set, for every list of CAF strings (any of the ten types, no NUL) that fits the writer's
-    16 KiB buffer: the explicit limit `cafNeed es < 16384` -/
-theorem caf_info_roundtrip (es : List (Nat × List Byte)) (h : ∀ e ∈ es, cafOk e) (hfit : cafNeed es < CAF_BUF) :
-    readCafInfo (writeCafInfo es) = es := by
+    buffer of `cap` bytes and the 100 KiB the reader accepts -/
+theorem caf_info_roundtrip_cap (cap : Nat) (es : List (Nat × List Byte)) (h : ∀ e ∈ es, cafOk e) (hfit : cafNeed es < cap)
+    (hcap : cafNeed es ≤ HEADER_CAP) : readCafInfo (writeCafInfoW cap es) = es := by
   cases es with
-  | nil => simp [writeCafInfo, cafPut, readCafInfo, ofBE, ofLE]
+  | nil => simp [writeCafInfoW, cafPut, readCafInfo, ofBE, ofLE]
   | cons e t =>
-    have hput := cafPut_fits (e :: t) h [] 0 (by simpa using hfit)
+    have hput := cafPut_fits cap (e :: t) h [] 0 (by simpa using hfit)
     have hlen := flatMap_pairBytes_length (e :: t)
     have hpos : 0 < cafNeed (e :: t) := by simp only [cafNeed]; omega
-    unfold CAF_BUF at hfit
-    unfold writeCafInfo
+    unfold HEADER_CAP at hcap
+    unfold writeCafInfoW
     simp only [hput, List.nil_append, Nat.zero_add]
     rw [if_neg (by simp only [hlen, List.length_cons]; omega)]
     unfold readCafInfo
     have e4 : (mk "info").length = 4 := by decide
     simp only [List.append_assoc]
     rw [drop_front_add (mk "info") _ 4 0 e4, List.drop_zero, take_front _ _ 8 (be8_length _), ofBE_be8 (by omega)]
-    rw [if_neg (by omega)]
+    rw [if_neg (by unfold HEADER_CAP; omega)]
     have h16 : (mk "info" ++ (be8 (((e :: t).flatMap pairBytes).length + 4) ++ (be4 (e :: t).length ++ (e :: t).flatMap pairBytes))).drop 16
         = (e :: t).flatMap pairBytes := by
       rw [show mk "info" ++ (be8 (((e :: t).flatMap pairBytes).length + 4) ++ (be4 (e :: t).length ++ (e :: t).flatMap pairBytes))
@@ -238,12 +304,60 @@ theorem caf_info_roundtrip (es : List (Nat × List Byte)) (h : ∀ e ∈ es, caf
     rw [h16, Nat.add_sub_cancel, List.take_length]
     exact cafPairs_pairs (e :: t) h _ (by rw [hlen]; have := length_le_cafNeed (e :: t); omega)
 
-/-- a string that does not fit the writer's 16 KiB buffer is dropped silently (known finding KF.caf16k) -/
-theorem caf_buffer_limit_witness :
-    readCafInfo (writeCafInfo [(1, [84]), (5, List.replicate 16367 99), (4, [65])]) = [(1, [84]), (4, [65])] := by decide +kernel
+theorem cafKey_length {ty : Nat} {k : List Byte} (h : cafKey ty = some k) : k.length ≤ 11 := by
+  unfold cafKey at h
+  split at h <;> simp at h <;> subst h <;> decide
 
-example : readCafInfo (writeCafInfo [(1, ascii "T"), (8, ascii "a licence"), (16, ascii "genre")]) =
+/-- the bytes the strings occupy in `psf->strings.storage` (text + NUL each) -/
+def storedBytes (es : List (Nat × List Byte)) : Nat := (es.map fun e => e.2.length + 1).sum
+
+theorem cafNeed_le_stored (es : List (Nat × List Byte)) : cafNeed es ≤ storedBytes es + 12 * es.length := by
+  induction es with
+  | nil => simp [cafNeed, storedBytes]
+  | cons e t ih =>
+    have hk : ((cafKey e.1).getD []).length ≤ 11 := by
+      cases hc : cafKey e.1 with
+      | none => simp
+      | some k => simpa using cafKey_length hc
+    simp only [cafNeed, storedBytes, List.map_cons, List.sum_cons, List.length_cons] at ih ⊢
+    omega
+
+/-- `caf_info_roundtrip` (full strength since the repair of the writer's buffer): get after re-open = what was set for every
+    list of CAF strings a string table can hold (at most 32 entries, any of the ten types, no NUL) — `used`
+    (`strings.storage_used`) is at least the bytes these strings occupy there — whose `info` chunk the header cache can hold -/
+theorem caf_info_roundtrip (used : Nat) (es : List (Nat × List Byte)) (h : ∀ e ∈ es, cafOk e) (h32 : es.length ≤ SF_MAX_STRINGS)
+    (hused : storedBytes es ≤ used) (hcap : cafNeed es ≤ HEADER_CAP) : readCafInfo (writeCafInfo used es) = es := by
+  apply caf_info_roundtrip_cap _ es h _ hcap
+  have := cafNeed_le_stored es
+  unfold SF_MAX_STRINGS at *
+  omega
+
+example : readCafInfo (writeCafInfo 20 [(1, ascii "T"), (8, ascii "a licence"), (16, ascii "genre")]) =
     [(1, ascii "T"), (8, ascii "a licence"), (16, ascii "genre")] := by decide +kernel
+
+/-- more than 16 KiB of strings now come back … -/
+example : readCafInfo (writeCafInfo 16372 [(1, [84]), (5, List.replicate 16367 99), (4, [65])]) =
+    [(1, [84]), (5, List.replicate 16367 99), (4, [65])] := by
+  apply caf_info_roundtrip
+  · intro e he
+    simp only [List.mem_cons, List.mem_nil_iff, or_false] at he
+    rcases he with rfl | rfl | rfl
+    · exact ⟨by decide, by decide⟩
+    · refine ⟨?_, by decide⟩
+      intro b hb; rw [(List.mem_replicate.mp hb).2]; decide
+    · exact ⟨by decide, by decide⟩
+  · decide
+  · decide +kernel
+  · decide +kernel
+
+/-- … where the fixed 16 KiB buffer dropped the string that did not fit, silently -/
+theorem caf_buffer_limit_old_rule :
+    readCafInfo (writeCafInfoOld [(1, [84]), (5, List.replicate 16367 99), (4, [65])]) = [(1, [84]), (4, [65])] := by decide +kernel
+
+/-- the old writer's round trip under its limit `cafNeed es < 16384` -/
+theorem caf_info_roundtrip_16k_old_rule (es : List (Nat × List Byte)) (h : ∀ e ∈ es, cafOk e) (hfit : cafNeed es < CAF_BUF) :
+    readCafInfo (writeCafInfoOld es) = es :=
+  caf_info_roundtrip_cap CAF_BUF es h hfit (by unfold CAF_BUF at hfit; unfold HEADER_CAP; omega)
 
 /-! ## channel layout tags -/
 
